@@ -292,4 +292,24 @@ Section Prog.
     destruct (query_restores mkleaf lnext lclose prog f_nxt linv L_new L_next L_close L_ext _ _ _ _ _ _ H) as [A [B C]].
     repeat split; auto. unfold ithrow. rewrite A. reflexivity.
   Qed.
+
+  (* YP.evaluate_bounded as a consumer (engine.py:562-591 after fix D17):
+       try:     for x in query: result.append(projection_function(x))
+       except RuntimeError / StopIteration: pass
+       finally: ...; query.close()
+     k = the number of answers after which the loop is left early because the projection function
+     raises (anything, StopIteration included); the loop also ends when the query is exhausted or
+     an exception (RecursionError under the lowered limit d) comes out of it.  In every case the
+     finally closes the query: *)
+  Definition bounded_m (n d k : nat) (h : heap) (name : str) (args : list term) (nx : nat) : option (heap * list heap) :=
+    match m_nexts n d k h (m_query name args nx) with
+    | None => None
+    | Some (hf, itf, ys, _) => Some (m_iclose hf itf, ys)
+    end.
+  Theorem bounded_restores n d k h name args nx hf ys :
+    bounded_m n d k h name args nx = Some (hf, ys) -> hf = h.
+  Proof.
+    unfold bounded_m. destruct (m_nexts n d k h (m_query name args nx)) as [[[[h1 it1] ys1] r1]|] eqn:E; [|discriminate].
+    intros H. inversion H; subst. apply (compiled_query_restores _ _ _ _ _ _ _ E).
+  Qed.
 End Prog.
